@@ -239,7 +239,12 @@ def event_fn(tr):
 
 def same(a, b):
     from engine.sym import is_zero_syntactic
-    if isinstance(a, (tuple, list)) or hasattr(a, 'shape'):
+    import numpy as _rnp
+    if isinstance(a, _rnp.generic):
+        a = a.item()
+    if isinstance(b, _rnp.generic):
+        b = b.item()
+    if isinstance(a, (tuple, list)) or (hasattr(a, 'shape') and not isinstance(a, Sym)):
         a = list(np.asarray(a).reshape(-1))
         b = list(np.asarray(b).reshape(-1))
         return len(a) == len(b) and all(same(x, y) for x, y in zip(a, b))
